@@ -29,6 +29,7 @@ type CLIOpts struct {
 	Env     []string
 	Timeout time.Duration
 	Dir     string // scratch dir for the script file
+	Cwd     string // working directory of the child (default: inherited)
 }
 
 var cliSeq int
@@ -60,6 +61,9 @@ func RunCLI(o CLIOpts) *Obs {
 	defer cancel()
 	cmd := exec.CommandContext(ctx, o.Bin, args...)
 	cmd.Env = append([]string{"PATH=/usr/bin:/bin", "HOME=/tmp", "GOTRACEBACK=single"}, o.Env...)
+	if o.Cwd != "" {
+		cmd.Dir = o.Cwd
+	}
 	if len(o.Chunks) > 0 {
 		pr, pw := io.Pipe()
 		cmd.Stdin = pr
